@@ -505,6 +505,11 @@ HOPS: Dict[str, Tuple[Dict[str, str], List[str]]] = {
     'toml+foreign-setupcfg': ({'pyproject.toml': TOML_RICH, 'setup.cfg': '[metadata]\nname = other\n\n[flake8]\nmax-line-length = 100\n'}, TOML_RICH_CLI),
     'toml+setupcfg-disjoint': ({'pyproject.toml': TOML_RICH, 'setup.cfg': '[tool:pydoctor]\ndocformat = google\n'}, TOML_RICH_CLI + ['--docformat=google']),
     'toml+ini-disjoint': ({'pyproject.toml': '[tool.pydoctor]\ndocformat = "numpy" # fmt\n', 'pydoctor.ini': '[pydoctor]\nproject-name = Side\n'}, ['--docformat=numpy', '--project-name=Side']),
+    # [DEFAULT] sections: configparser's own defaults mechanism applies inside ONE file; a file's [DEFAULT] says nothing about another file or a later read
+    'setupcfg-with-DEFAULT': ({'setup.cfg': '[DEFAULT]\nhtml-output = build/apidocs\n\n[tool:pydoctor]\nproject-name = WithDefault\n'}, ['--html-output=build/apidocs', '--project-name=WithDefault']),
+    'ini-only-DEFAULT+setupcfg': ({'pydoctor.ini': '[DEFAULT]\nproject-name = Shared Name\n', 'setup.cfg': '[tool:pydoctor]\ndocformat = numpy\n'}, ['--docformat=numpy']),
+    # a file with an INI name written in the syntax INI and TOML share, holding a % that is no valid INI interpolation: the TOML reading is the fallback
+    'ini-toml-syntax-percent': ({'pydoctor.ini': '[pydoctor]\nproject-name = "100% Python"\nproject-url = "http://x/a%20b"\n'}, ['--project-name=100% Python', '--project-url=http://x/a%20b']),
     'toml-foreign-only': ({'pyproject.toml': '[tool.black]\nline-length = 100\n\n[project]\nname = "x" # c\n', 'setup.cfg': '[metadata]\nname = x\n'}, []),
 }
 
